@@ -273,7 +273,7 @@ func run(toks []string) string {
 			var er goahttp.ErrorResponse
 			body := "bad"
 			if err := json.Unmarshal(rec.Body.Bytes(), &er); err == nil && er.Fault && er.Name != "" && er.ID != "" &&
-				strings.HasPrefix(rec.Header().Get("Content-Type"), "application/json") {
+				strings.HasPrefix(rec.Result().Header.Get("Content-Type"), "application/json") { // the headers as they were when the status was written
 				body = "ok"
 			}
 			// the same request as clients with an Accept header send it: the 404 must still carry a well-formed
@@ -287,7 +287,7 @@ func run(toks []string) string {
 				req2.Header.Set("Accept", accept)
 				rec2 := httptest.NewRecorder()
 				m.ServeHTTP(rec2, req2)
-				ct := rec2.Header().Get("Content-Type")
+				ct := rec2.Result().Header.Get("Content-Type") // a header set after WriteHeader never reaches the client
 				var er2 goahttp.ErrorResponse
 				okBody := false
 				switch {
